@@ -1363,20 +1363,24 @@ def run_case(ck, schema, scen_name, sc, muts, evaluate=False):
         if gi[0] == "ok" and any(g.startswith("[param,") for g in gi[1]):
             ck.violation("generated-parameters-missing", "validating against generate_parameters() still reports "
                          f"{[g for g in gi[1] if g.startswith('[param,')]}", case)
-        # tightness (Lean: generated_parameters_all_referenced, generated_parameters_tight): every generated label is
-        # one of get_parameter_labels(), and leaving any one out is reported as a ParameterIssue for that label
+        # tightness (Lean: generated_parameters_all_referenced, generated_parameters_tight): leaving out any one of the
+        # generated labels must be reported — what the property demands is computed from the spec alone
+        # (expected_issues), so a generator that produces additional, unreferenced parameters is not an alarm
         from glotaran.parameter import Parameters
         gen_labels = sorted(gen.labels)
         if gen_labels != labels:
-            ck.violation("generated-parameters-not-the-referenced-ones",
-                         f"generate_parameters() has {gen_labels}, get_parameter_labels() {labels}", case)
+            ck.count("generated-parameters-differ-from-referenced-labels")
         for drop in gen_labels:
             ck.oracle_evals += 1
+            rest = [x for x in gen_labels if x != drop]
             less = Parameters({p.label: p for p in gen.all() if p.label != drop})
             gl = real_issues(model, less)
-            if gl[0] == "ok" and f"[param,{enc(drop)}]" not in gl[1]:
-                ck.violation("generated-parameters-not-tight", f"generate_parameters() without {drop!r} validates without "
-                             f"a ParameterIssue for it: {gl[1]}", case)
+            need = [x for x in expected_issues(schema, spec, rest) if x.startswith("[param,")]
+            if gl[0] == "ok":
+                unreported = [x for x in set(need) if x not in gl[1]]
+                if unreported:
+                    ck.violation("generated-parameters-not-tight", f"generate_parameters() without {drop!r}: the referenced "
+                                 f"labels {unreported} are not in the set but get_issues reports {gl[1]}", case)
     except Exception as e:  # noqa: BLE001
         impl.append("err " + ERR_CLASS.get(type(e).__name__, type(e).__name__))
         ck.violation("internal-error-parameter-labels-" + type(e).__name__, f"get_parameter_labels/generate_parameters raised {e!r}", case)
